@@ -121,6 +121,11 @@ type stateObject struct {
 	dirtyCode bool // true if the code was updated
 	suicided  bool
 	deleted   bool
+
+	// storage generation: bumped whenever the account is deleted or re-created, so that a new account at
+	// the same address starts with empty storage (go-ethereum: a new object has an empty storage trie)
+	generation      uint64
+	dirtyGeneration bool
 }
 
 func newStateObject(db *CommitStateDB, acc *balance.EthAccount) *stateObject {
@@ -194,7 +199,7 @@ func (so *stateObject) GetCommittedState(_ ethstate.Database, key ethcmn.Hash) e
 	state := NewState(prefixKey, ethcmn.Hash{})
 	value := ethcmn.Hash{}
 
-	prefixStore := evm.AddressStoragePrefix(so.Address())
+	prefixStore := so.storagePrefix()
 	rawValue, _ := so.stateDB.contractStore.Get(prefixStore, prefixKey.Bytes())
 	if len(rawValue) > 0 {
 		value.SetBytes(rawValue)
@@ -364,6 +369,11 @@ func (so stateObject) GetStorageByAddressKey(key []byte) ethcmn.Hash {
 	return utils.GetStorageByAddressKey(so.Address(), key)
 }
 
+// storagePrefix is the contract store prefix of this account's current storage generation.
+func (so *stateObject) storagePrefix() []byte {
+	return evm.AddressStorageGenerationPrefix(so.address, so.generation)
+}
+
 func (so *stateObject) markSuicided() {
 	so.suicided = true
 }
@@ -371,7 +381,11 @@ func (so *stateObject) markSuicided() {
 // commitState commits all dirty storage to a ContractStore and resets
 // the dirty storage slice to the empty state.
 func (so *stateObject) commitState() {
-	prefixStore := evm.AddressStoragePrefix(so.Address())
+	prefixStore := so.storagePrefix()
+	if so.dirtyGeneration {
+		so.stateDB.storeGeneration(so.address, so.generation)
+		so.dirtyGeneration = false
+	}
 
 	so.logger.Detail("VM: dirty storage for commit state", so.address, "st", len(so.dirtyStorage))
 
@@ -455,6 +469,8 @@ func (so *stateObject) deepCopy(db *CommitStateDB) *stateObject {
 	newStateObj.suicided = so.suicided
 	newStateObj.dirtyCode = so.dirtyCode
 	newStateObj.deleted = so.deleted
+	newStateObj.generation = so.generation
+	newStateObj.dirtyGeneration = so.dirtyGeneration
 
 	return newStateObj
 }
